@@ -243,6 +243,55 @@ def files_scope(res, pid, rng, tier):
                     if not os.path.isfile(pth) or open(pth, "rb").read() != o.getvalue().encode("utf-8"):
                         fails.append({"kind": "a single input file with a bare relative output name did not yield that output file with the stream API's content",
                                       "cfg": cfg.describe(), "output_name": nm, "cwd_listing": sorted(os.listdir(wd))})
+            # a file that is called `-` is a file; a path through a symbolic link to a directory is resolved by the file system, not as text
+            if want:
+                import sys as _sys
+                cwd = os.getcwd()
+                wd2 = os.path.join(d, "cwd2")
+                os.makedirs(os.path.join(wd2, "real", "store", "inner"))
+                os.makedirs(os.path.join(wd2, "real", "store", "cfgs"))
+                os.makedirs(os.path.join(wd2, "top", "cfgs"))
+                open(os.path.join(wd2, "-"), "wb").write(files[want[0]])
+                open(os.path.join(wd2, "real", "store", "cfgs", "x.cfg"), "wb").write(files[want[0]])
+                open(os.path.join(wd2, "top", "cfgs", "decoy.cfg"), "wb").write(b"hostname decoy\n")
+                os.symlink(os.path.join("..", "real", "store", "inner"), os.path.join(wd2, "top", "link"))
+                o = io.StringIO()
+                with fa.LogCap():
+                    cfg.build().anonymize_io(io.StringIO(files[want[0]].decode("utf-8"), newline=""), o)
+                expect = o.getvalue().encode("utf-8")
+                stdin0 = _sys.stdin
+                try:
+                    os.chdir(wd2)
+                    _sys.stdin = io.StringIO("")
+                    import contextlib as _cl2
+                    with fa.LogCap(), _cl2.redirect_stdout(io.StringIO()):
+                        try:
+                            cfg.build().anonymize_file("-", "dash.out")
+                            cfg.build().anonymize_file("dash.out.src" if False else os.path.join("real", "store", "cfgs", "x.cfg"), "-out")
+                        except Exception:  # noqa
+                            pass
+                        try:
+                            anonymize_files(os.path.join("top", "link", "..", "cfgs"), "out_api", cfg.pwd, cfg.ip, **api_kwargs(cfg))
+                        except Exception:  # noqa
+                            pass
+                    try:
+                        with fa.LogCap(), _cl2.redirect_stderr(io.StringIO()):
+                            nc.main(cli_argv(cfg, os.path.join("top", "link", "..", "cfgs"), "out_cli"))
+                    except BaseException:  # noqa
+                        pass
+                finally:
+                    _sys.stdin = stdin0
+                    os.chdir(cwd)
+                res.evaluations += 3
+                got_dash = open(os.path.join(wd2, "dash.out"), "rb").read() if os.path.isfile(os.path.join(wd2, "dash.out")) else None
+                if got_dash != expect:
+                    fails.append({"kind": "entry points produce different content for the same file", "cfg": cfg.describe(),
+                                  "situation": "FileAnonymizer.anonymize_file on an input file that is named `-`", "output": (got_dash or b"<none>")[:200].decode("utf-8", "replace")})
+                a_, c_ = read_tree(os.path.join(wd2, "out_api")), read_tree(os.path.join(wd2, "out_cli"))
+                if sorted(a_) != ["x.cfg"] or (cfg.prefixes is None and c_ != a_):
+                    fails.append({"kind": "command line and directory API produce different content", "cfg": cfg.describe(),
+                                  "situation": "input path `top/link/../cfgs` where `top/link` is a symbolic link to a directory elsewhere",
+                                  "api_outputs": sorted(a_), "command_line_outputs": sorted(c_)})
             # a single, explicitly named input file whose name starts with a dot yields the named output file
             if want:
                 hid = os.path.join(d, ".rtr1.running-config")
